@@ -62,6 +62,24 @@ def subst(e: ast.expr, m: dict[str, ast.expr]) -> ast.expr:
     return ast.fix_missing_locations(_Subst(m).visit(copy.deepcopy(e)))
 
 
+class Env(dict):  # type: ignore[type-arg]
+    """name -> text pieces; ``lists`` names the entries that are lists of pieces (only meaningful under "".join)."""
+
+    def __init__(self, *a: Any, **k: Any) -> None:
+        super().__init__(*a, **k)
+        self.lists: set[str] = set()
+
+
+def _without(env: "Env", names: Any) -> "Env":
+    e2 = Env({k: v for k, v in env.items() if k not in names})
+    e2.lists = set(env.lists)
+    return e2
+
+
+def _is_list(env: dict, name: str) -> bool:
+    return name in getattr(env, "lists", ())
+
+
 def is_strish(e: ast.expr, env: dict[str, list]) -> bool:
     if isinstance(e, ast.Constant) and isinstance(e.value, str):
         return True
@@ -69,8 +87,10 @@ def is_strish(e: ast.expr, env: dict[str, list]) -> bool:
         return True
     if isinstance(e, ast.JoinedStr):
         return True
-    if isinstance(e, ast.Name) and e.id in env:
+    if isinstance(e, ast.Name) and e.id in env and not _is_list(env, e.id):
         return True
+    if isinstance(e, ast.Attribute) and norm(e) in env:
+        return True  # a field of a record (NamedTuple) built from text pieces
     if isinstance(e, ast.BinOp) and isinstance(e.op, ast.Add):
         return is_strish(e.left, env) or is_strish(e.right, env)
     return False
@@ -115,8 +135,10 @@ def eval_str(e: ast.expr, env: dict[str, list], alias: dict[str, ast.expr]) -> l
 def _eval_str(e: ast.expr, env: dict[str, list], alias: dict[str, ast.expr]) -> list:
     if isinstance(e, ast.Constant) and isinstance(e.value, str):
         return [Lit(e.value)] if e.value else []
-    if isinstance(e, ast.Name) and e.id in env:
+    if isinstance(e, ast.Name) and e.id in env and not _is_list(env, e.id):
         return list(env[e.id])
+    if isinstance(e, ast.Attribute) and norm(e) in env:
+        return list(env[norm(e)])
     if isinstance(e, ast.JoinedStr):
         out: list = []
         for v in e.values:
@@ -130,8 +152,10 @@ def _eval_str(e: ast.expr, env: dict[str, list], alias: dict[str, ast.expr]) -> 
                 folded = _fold_const(v.value)
                 if folded is not None and conv in ("", "s") and spec is None and isinstance(folded.value, (str, int)) and not isinstance(folded.value, bool):
                     out.append(Lit(str(folded.value)))  # a constant formatted into the text is that text
-                elif isinstance(v.value, ast.Name) and v.value.id in env and not conv and spec is None:
+                elif isinstance(v.value, ast.Name) and v.value.id in env and not _is_list(env, v.value.id) and not conv and spec is None:
                     out.extend(env[v.value.id])
+                elif isinstance(v.value, ast.Attribute) and norm(v.value) in env and not conv and spec is None:
+                    out.extend(env[norm(v.value)])
                 elif not conv and spec is None and isinstance(v.value, ast.Call) and is_strish(v.value, env):
                     out.extend(eval_str(v.value, env, alias))  # "".join(...) formatted into the text
                 elif not conv and spec is None and (isinstance(v.value, ast.JoinedStr) or (
@@ -147,7 +171,7 @@ def _eval_str(e: ast.expr, env: dict[str, list], alias: dict[str, ast.expr]) -> 
         a = e.args[0]
         if isinstance(a, (ast.GeneratorExp, ast.ListComp)) and len(a.generators) == 1 and not a.generators[0].ifs:
             g = a.generators[0]
-            inner_env = {k: v for k, v in env.items()}
+            inner_env = env
             return [Loop(subst(g.iter, alias), g.target, eval_str(a.elt, inner_env, alias), e)]
         if isinstance(a, ast.Name) and a.id in env:
             return list(env[a.id])  # a list of pieces collected with append(): the same text as += on a string
@@ -163,6 +187,11 @@ def _eval_str(e: ast.expr, env: dict[str, list], alias: dict[str, ast.expr]) -> 
     return [Dyn(subst(e, alias), "", None, e)]
 
 
+def _nt_fields() -> dict:
+    from .normalize import NAMEDTUPLE_FIELDS
+    return NAMEDTUPLE_FIELDS
+
+
 @dataclass
 class Sink:
     attr: str  # attribute the digest is stored to (content_id / id / ...)
@@ -174,11 +203,11 @@ class Sink:
 
 def contributions(func: Func) -> list[Sink]:
     fn = func.node
-    env: dict[str, list] = {}
+    env: Env = Env()
     alias: dict[str, ast.expr] = {}
     pending: dict[str, tuple[list, ast.Call, str, ast.stmt]] = {}  # local var holding a digest -> snapshot
     sinks: list[Sink] = []
-    lists: set[str] = set()
+    lists = env.lists
 
     def find_hash_call(st: ast.stmt) -> ast.Call | None:
         for n in walk_local(st):
@@ -206,6 +235,9 @@ def contributions(func: Func) -> list[Sink]:
         return None
 
     hashers: dict[str, ast.Call] = {}
+    # locals that are joined into one text somewhere in the function
+    joined = {c.args[0].id for c in walk_local(fn) if isinstance(c, ast.Call) and isinstance(c.func, ast.Attribute) and c.func.attr == "join"
+              and isinstance(c.func.value, ast.Constant) and c.func.value.value == "" and len(c.args) == 1 and isinstance(c.args[0], ast.Name)}
 
     def strip_encode(a: ast.expr) -> ast.expr:
         if isinstance(a, ast.Call) and isinstance(a.func, ast.Attribute) and a.func.attr == "encode":
@@ -237,7 +269,7 @@ def contributions(func: Func) -> list[Sink]:
                     and st.value.func.attr == "update" and isinstance(st.value.func.value, ast.Name) and st.value.func.value.id in hashers \
                     and len(st.value.args) == 1:
                 h = st.value.func.value.id
-                env[h] = env[h] + eval_str(strip_encode(st.value.args[0]), {k: v for k, v in env.items() if k not in hashers}, alias)
+                env[h] = env[h] + eval_str(strip_encode(st.value.args[0]), _without(env, hashers), alias)
                 continue
             sa0 = setattr_target(st)
             if sa0 is not None and isinstance(sa0[1], ast.Call) and isinstance(sa0[1].func, ast.Attribute) and sa0[1].func.attr == "hexdigest" \
@@ -273,14 +305,28 @@ def contributions(func: Func) -> list[Sink]:
                 segs, hc2, algo, st0 = pending[sa[1].id]
                 sinks.append(Sink(sa[0], segs, hc2, algo, st0))
                 continue
-            if isinstance(st, ast.Assign) and len(st.targets) == 1 and isinstance(st.targets[0], ast.Name) and isinstance(st.value, ast.List) and not st.value.elts:
-                env[st.targets[0].id] = []  # a list of text pieces (joined later)
+            if isinstance(st, ast.Assign) and len(st.targets) == 1 and isinstance(st.targets[0], ast.Name) and isinstance(st.value, ast.List) \
+                    and (not st.value.elts or st.targets[0].id in joined) and not any(isinstance(x, ast.Starred) for x in st.value.elts):
+                pieces: list = []  # a list of text pieces (joined later), possibly with first pieces given in the literal
+                for x in st.value.elts:
+                    pieces += eval_str(x, env, alias)
+                env[st.targets[0].id] = pieces
                 lists.add(st.targets[0].id)
+                continue
+            if isinstance(st, ast.Assign) and len(st.targets) == 1 and isinstance(st.targets[0], ast.Name) and isinstance(st.value, ast.Call) \
+                    and (dotted(st.value.func) or "") in _nt_fields():
+                # a record (NamedTuple of the package) holding text pieces: its fields are tracked like locals
+                fields = [f_ for f_, _ in _nt_fields()[dotted(st.value.func) or ""]]
+                bound = dict(zip(fields, st.value.args))
+                bound.update({k.arg: k.value for k in st.value.keywords if k.arg})
+                for f_, x in bound.items():
+                    if is_strish(x, env):
+                        env[f"{st.targets[0].id}.{f_}"] = eval_str(x, env, alias)
                 continue
             if isinstance(st, ast.Expr) and isinstance(st.value, ast.Call) and isinstance(st.value.func, ast.Attribute) and st.value.func.attr == "append" \
                     and isinstance(st.value.func.value, ast.Name) and st.value.func.value.id in lists and len(st.value.args) == 1:
                 nm = st.value.func.value.id
-                env[nm] = env[nm] + eval_str(st.value.args[0], {k: v for k, v in env.items() if k not in lists}, alias)
+                env[nm] = env[nm] + eval_str(st.value.args[0], env, alias)
                 continue
             if isinstance(st, ast.Assign) and len(st.targets) == 1 and isinstance(st.targets[0], ast.Name):
                 name = st.targets[0].id
@@ -328,7 +374,20 @@ def contributions(func: Func) -> list[Sink]:
                 names = {n.id for n in walk_local(st) if isinstance(n, ast.Name) and isinstance(n.ctx, ast.Store)}
                 if names & set(env):
                     raise Unsupported("digest accumulator modified under a condition", st)
-                # pending digests may be post-processed (uniqueness suffix), nothing else to track
+                # pending digests may be post-processed (uniqueness suffix) or renamed: a local that is bound, on every branch, to a
+                # pending digest or to a call that receives one, carries that digest
+                for nm in sorted(names):
+                    vals = [n.value for n in walk_local(st) if isinstance(n, ast.Assign) and len(n.targets) == 1 and isinstance(n.targets[0], ast.Name) and n.targets[0].id == nm]
+                    srcs = set()
+                    for v in vals:
+                        if isinstance(v, ast.Name) and v.id in pending:
+                            srcs.add(v.id)
+                        elif isinstance(v, ast.Call) and len(v.args) == 1 and isinstance(v.args[0], ast.Name) and v.args[0].id in pending and not v.keywords:
+                            srcs.add(v.args[0].id)
+                        else:
+                            srcs.add(None)
+                    if len(srcs) == 1 and None not in srcs and nm not in pending:
+                        pending[nm] = pending[next(iter(srcs))]
                 continue
 
     walk(fn.body, True)
